@@ -173,6 +173,15 @@ func c09Check(ci any, o *core.Obs) {
 					// a cut at exactly 0 makes no piece (the positions are sorted and a leading 0 is dropped)
 				}
 			}
+			// two cuts closer together than twice the precision of the arc-length inversion (a 0.1%
+			// bisection per segment) may land on one point: the number of pieces is then not defined
+			for k := 1; k < len(cuts); k++ {
+				if cuts[k]-cuts[k-1] < 2e-3*L {
+					endCut = true
+					o.Count("splitat_count_undecided_close_cuts", 1)
+					break
+				}
+			}
 			if len(src) == 1 && !o.Failed() && !endCut {
 				o.Decided(1)
 				// repeated positions and positions at the ends legitimately give zero-length pieces;
